@@ -400,6 +400,12 @@ def obligations(tier, seed):
             r["replay"] = {"scenario": "c02_ws_batch_with_subscription", "args": {"entries": ["sub", "call"]}}
         out.append(r)
     out.append(_ws_reply_decision(R.bodies("server")))
+    # "only the response-size limit (C08) may replace the array by a single error": what decides that replacement is the text length alone - never what an entry is
+    # (e.g. an entry that is itself a -32008 error) - the append / builder kernels of C08, shared
+    from . import C08 as _c08
+    for r in _c08.obligations("quick", seed):
+        if r.get("name", "").startswith(("kernel:BatchResponseBuilder::append:post", "kernel:BatchResponseBuilder:end-to-end")):
+            out.append(r)
     # "however the server is assembled": the configured value survives every builder step
     from .cfgframe import journey_obligations as _journey
     _extra = _journey(R.bodies("server"), "batch_requests_config", "set_batch_request_config", scenario="cfg_journey", fixed={"field": "batch_requests_config"})
